@@ -852,3 +852,76 @@ N('lobpcg-status-reset-then-else-branch', 'C17',
   [('contrib/LOBPCGSolver.h', "        if (BlockSize == 0)\r\n        {\r\n            m_info = Eigen::Success;\r\n        }\r\n    }  // compute",
     "        if (BlockSize == 0)\r\n        {\r\n            m_info = Eigen::Success;\r\n        }\r\n        else if (m_info == Eigen::Success)\r\n        {\r\n            m_info = Eigen::NoConvergence;\r\n        }\r\n    }  // compute")],
   'redundant second reset: same status on every path')
+
+# ----------------------------------------------------------------------------- BKLDLT::solve_inplace: block structure of m_perm (C13-D15)
+BK = 'LinAlg/BKLDLT.h'
+M('bkldlt-2x2-marks-first-position-only', 'C13', 'permutation-sign-structure',
+  [(BK, "        m_perm[k] = -m_perm[k] - 1;\n        m_perm[k + 1] = -m_perm[k + 1] - 1;\n", "        m_perm[k] = -m_perm[k] - 1;\n")],
+  'a lone negative entry: the diagonal solve reads x[i + 1] / diag_coeff(i + 1) for the last position')
+M('bkldlt-2x2-mark-before-store', 'C13', 'permutation-sign-structure',
+  [(BK, "        pivoting_1x1(k, p);\n        pivoting_1x1(k + 1, r);\n", "        m_perm[k] = -m_perm[k] - 1;\n        pivoting_1x1(k, p);\n        pivoting_1x1(k + 1, r);\n"),
+   (BK, "        m_perm[k] = -m_perm[k] - 1;\n        m_perm[k + 1] = -m_perm[k + 1] - 1;\n", "        m_perm[k + 1] = -m_perm[k + 1] - 1;\n")],
+  'the mark of position k is overwritten by the store of pivoting_1x1: pair with one negative entry')
+M('bkldlt-diagonal-solve-forgets-extra-step', 'C13', 'permutation-sign-structure',
+  [(BK, "                solve_inplace_2x2(e11, e21, e22, x[i], x[i + 1]);\n\n                i++;\n", "                solve_inplace_2x2(e11, e21, e22, x[i], x[i + 1]);\n")],
+  'the scan then stands on the second entry of a pair: for a pair at the end reads position n')
+M('bkldlt-backward-scan-starts-on-last-block', 'C13', 'permutation-sign-structure',
+  [(BK, "        Index i = (m_perm[m_n - 1] < 0) ? (m_n - 3) : (m_n - 2);", "        Index i = (m_perm[m_n - 1] < 0) ? (m_n - 2) : (m_n - 2);")],
+  'n = 2 with one 2x2 block: coeff(1, -1)')
+M('bkldlt-factorization-loop-ignores-block-size', 'C13', 'permutation-sign-structure',
+  [(BK, "                m_info = gaussian_elimination_2x2(k);\n                k++;\n", "                m_info = gaussian_elimination_2x2(k);\n")],
+  'the next iteration re-pivots the second position of the pair (numerically wrong as well)')
+M('bkldlt-compressed-list-stores-raw-entry', 'C13', 'permutation-sign-structure',
+  [(BK, "                m_permc.push_back(std::make_pair(i, perm));", "                m_permc.push_back(std::make_pair(i, Index(m_perm[i])));")],
+  'negative entries end up as subscripts of x')
+M('bkldlt-permutation-loop-one-past', 'C13', 'permutation-sign-structure',
+  [(BK, "        for (Index i = 0; i < npermc; i++)\n        {\n            std::swap(x[m_permc[i].first], x[m_permc[i].second]);", "        for (Index i = 0; i <= npermc; i++)\n        {\n            std::swap(x[m_permc[i].first], x[m_permc[i].second]);")],
+  'reads one pair past the list')
+N('bkldlt-marks-in-other-order', 'C13',
+  [(BK, "        m_perm[k] = -m_perm[k] - 1;\n        m_perm[k + 1] = -m_perm[k + 1] - 1;\n", "        m_perm[k + 1] = -m_perm[k + 1] - 1;\n        m_perm[k] = -m_perm[k] - 1;\n")], 'same pair')
+N('bkldlt-diagonal-solve-branches-swapped', 'C13',
+  [(BK, """            if (m_perm[i] >= 0)
+            {
+                // [inverse]
+                // x[i] *= e11;
+                // [solve]
+                x[i] /= e11;
+            }
+            else
+            {""", """            if (m_perm[i] >= 0)
+                x[i] /= e11;
+            if (m_perm[i] < 0)
+            {""")], 'two tests instead of if/else: same scan')
+
+# ----------------------------------------------------------------------------- extents established by init() are kept (round-10 seed C13j)
+M('herm-sorted-values-buffer-has-nev-entries', 'C13', 'index-within-extent',
+  [('HermEigsBase.h', "        RealVector new_ritz_val(m_ncv);", "        RealVector new_ritz_val(m_nev);")],
+  'after the swap m_ritz_val has nev entries: the next retrieve_ritzpair (compute() after compute()) writes ncv')
+M('gen-convergence-flags-over-all-ncv', 'C13', 'index-within-extent',
+  [('GenEigsBase.h', "m_ritz_est.head(m_nev).array().abs()", "m_ritz_est.head(m_ncv).array().abs()", 'all')],
+  'the flag array silently grows to ncv entries (Eigen resizes on assignment)')
+
+# ----------------------------------------------------------------------------- series branches of the magnitude helpers (round-10 seed C08j)
+N('givens-series-cosine-fourth-order-coefficient', 'C08',
+  [('LinAlg/UpperHessenbergQR.h', "const Scalar c38 = Scalar(0.375);", "const Scalar c38 = Scalar(0.25);")],
+  '3/8 t^4 replaced by 1/4 t^4: the difference is at most 1/8 cutoff^4 = 1.25e-5 eps, far below rounding: the rule bounds the remainder, it does not compare text')
+M('givens-series-r-drops-quadratic-term', 'C08', 'series-branch-matches-closed-form',
+  [('LinAlg/UpperHessenbergQR.h', "r = a + c2 * b * t * (c1 - t2 * (c4 - c8 * t2));", "r = a + c2 * b * t2 * (c1 - t2 * (c4 - c8 * t2));")],
+  'r = a (1 + t^3/2 ...): relative error t^2/2 up to 1e-2 sqrt(eps)')
+M('norm3-series-wrong-sign', 'C08', 'series-branch-matches-closed-form',
+  [('LinAlg/DoubleShiftQR.h', "(Scalar(1) + r * (Scalar(0.5) - Scalar(0.125) * r));", "(Scalar(1) - r * (Scalar(0.5) - Scalar(0.125) * r));")],
+  'sqrt(1 + u) ~ 1 - u/2: first-order term has the wrong sign')
+N('givens-series-r-expanded', 'C08',
+  [('LinAlg/UpperHessenbergQR.h', "r = a + c2 * b * t * (c1 - t2 * (c4 - c8 * t2));", "r = a + b * t * (c2 - t2 * (c8 - c8 * c2 * t2));")],
+  'the same polynomial with the 1/2 folded in: a + b t (1/2 - t^2/8 + t^4/16)')
+
+# ----------------------------------------------------------------------------- F14
+M('herm-eigenvectors-negative-count-not-clamped', 'C05', 'accessor-agreement',
+  [('HermEigsBase.h', "nvec = (std::max)(Index(0), (std::min)(nvec, nconv));", "nvec = (std::min)(nvec, nconv);")], 'reverts fix F14')
+N('gen-eigenvectors-clamp-in-two-steps', 'C05',
+  [('GenEigsBase.h', "nvec = (std::max)(Index(0), (std::min)(nvec, nconv));", "nvec = (std::min)(nvec, nconv);\n        nvec = (std::max)(nvec, Index(0));")], 'same value')
+
+# ----------------------------------------------------------------------------- normalisation of the small eigen-solvers (round-10 seed C09j)
+M('hesseigen-scale-clamped-from-below', 'C09', 'input-normalised-to-unit-magnitude',
+  [('LinAlg/UpperHessenbergEigen.h', "const Scalar scale = mat.cwiseAbs().maxCoeff();", "const Scalar scale = (std::max)(Scalar(1e-8), mat.cwiseAbs().maxCoeff());")],
+  'matrices below 1e-8 are not normalised')
